@@ -1,14 +1,22 @@
-"""Correspondence of the PEG model (coq/Model/Peg.v interpreting the generated coq/Gen/AsmGrammar.v)
-with the pest parser of etk-asm (harness command `peg`, hook etk_asm::verif_parse_pairs).
+"""Correspondence of the model of the parser FROM SOURCE TEXT with etk-asm, in three layers, on every text:
 
-Both sides print `err` or the flattened pre-order list of pairs `rule:start-end` (byte offsets) for
-`AsmParser::parse(Rule::program, text)`; the check is a string comparison on every text.
+pairs  the PEG model (coq/Model/Peg.v interpreting the generated coq/Gen/AsmGrammar.v) against the pest
+       parser (harness command `peg`, hook etk_asm::verif_parse_pairs): both sides print `err` or the
+       flattened pre-order list of pairs `rule:start-end` (byte offsets) of `AsmParser::parse(Rule::program, text)`;
+tree   pairs -> syntax tree (coq/Model/ParseTree.v: parse/mod.rs, macros.rs, expression.rs, args.rs) against
+       `parse_asm` (harness command `parse_debug`, hook etk_asm::verif_parse_debug): the Debug rendering of
+       the nodes, or the kind of the ParseError;
+asm    text -> bytes (`run_asm_text` = ParseTree then Model/Asm.v) against `Ingest::ingest` (harness command
+       `asm`), for the texts in which the model finds no file directive (those need a file system: C12/C18).
+
+The model is evaluated once per text (`run_text_all` shares the parse); the check is a string comparison.
 
 run_peg(run) -> (n_cases, disagreements, distribution)
 """
+import re
 from lib import asmgen as G, common
 
-IMPORTS = "From Verif Require Import Model.Base Model.PegAst Gen.AsmGrammar Model.Peg."
+IMPORTS = "From Verif Require Import Model.Base Model.PegAst Gen.AsmGrammar Model.Peg Model.ParseTree."
 
 PLAIN_OPS = None
 IDENTS = ["a", "x", "loop", "lb0", "L_1", "end_", "Z9", "f", "m1", "selector", "topic", "push", "push1", "stop", "jumpdest1", "u_"]   # a label cannot start with `_` (a macro name can)
@@ -162,6 +170,13 @@ GLUED = [
     "push1 1 # c", "push1 1# c", "push1 1 #", "push1 # c\n1", "push1 1 + # c\n2", "push1 1 +\n2", "push1 (1 # c\n)", "push1 (\n1)", "%push(1 # c\n)", "%push(1 # c)", "%push(\n1)",
     "push1 1;push1 2", "push1 1 ; push1 2", "push1 1;;", "a:;b:", "a:;", "push1 1\n\n\npush1 2\n", "\n\npush1 1", "  push1 1  ", "\tpush1\t1\t", "push1 1\r\npush1 2\r\n", "push1 1\rpush1 2", "push1 1\n\rpush1 2",
     "STOP", "Stop", "PUSH1 1", "push1 A", "push1 0XFF", "st op", "push1 1 /* c */", "push1 1 // c", "push1 '1'", "push1 \"1\"", "push1 1.5", "push1 1e3", "push1 @", "push1 1 & 2", "\x00", "stop\x00", "stop\x0b", "stop\x0c", "stop\u00a0", "stop\u2028stop", "stop\u0085stop",
+    # conversion of pairs to the tree: orders of checks, blanks as separators, builtins in and out of macro bodies, nested definitions
+    "%m(1 2)", "%m(1 -1)", "%m(1 (2))", "push1 f(1 2)", "push1 f(1 2,3)", "%macro m(a b)\npush1 $a+$b\n%end\n%m(1 2)", "%def f(a b)\n$a\n%end\npush1 f(1 2)",
+    "% push(1)", "%macro m()\n% push(1)\n%end\n%m()", "%macro m()\n%push (1)\n%end\n%m()", "%macro m()\n%push(1,2)\n%end", "%macro m()\n%push()\n%end", "%macro m()\n%push(\"a\")\n%end",
+    "%import(1, \"b\")", "%push(\"a\", 1)", "%include_hex(\"a\",\"b\")", "%include(\"a\\\\b\", \"c\")", "%import(\"a\nb\")", "%import(\"\")", "%include(\"\t\x01\x7f'\")",
+    "%macro m()\n%macro n()\npc\n%end\n%end\n%m()\n%n()", "%macro m()\n%def f()\n1\n%end\n%end\n%m()\npush1 f()", "%macro m()\npush1 256\n%end", "%macro m()\n%macro n()\npush1 0x100\n%end\n%end",
+    "%macro m(x)\na:\npush1 $x+a\n%push(a)\n%end\n%m(1)\n%m(2)", "%def f(x)\n$x*2\n%end\n%macro m(y)\npush1 f($y)\n%end\n%m(f(3))", "push1 -0", "push1 0-1", "push2 0x123", "push1 08", "push1 0b11111111", "push1 0o400",
+    "stop:\npush1 stop", "push1:\npush1 push1", "selector:\npush1 selector", "push4 selector(\"f()\")+topic(\"g(x)\")/topic(\"g(x)\")", "push32 topic(\"f()\")", "push31 topic(\"f()\")", "push1 1+2*3-4/2", "push1 (1+2)*3", "push1 2*(3-1)/(1+1)", "push1 1/0", "%push(1/0)",
     "# \u00e9", "# \U0001f600\nstop", "#\u00e9", "%import(\"\u00e9\")", "%import(\"\U0001f600\\\"\")", "%include(\"a\u20acb\")", "push1 \u00e9", "\u00e9:", "a\u00e9:", "stop # \u03bb\r\npc", "stop\u00e9", "\u00e9", "\ufeffstop",
 ]
 
@@ -231,52 +246,95 @@ def texts(run):
     return res
 
 
+def _tree_text(ans):
+    """`ok:<hex>` of parse_debug -> the text, with Rust's `\\u{..}` escapes of unprintable NON-ASCII characters
+    (only paths can hold them) undone: the model copies those bytes"""
+    if not (ans or "").startswith("ok:"):
+        return (ans or "").strip()
+    try:
+        t = bytes.fromhex(ans[3:].strip()).decode("utf-8", "replace")
+    except ValueError:
+        return ans
+    return "ok:" + re.sub(r"\\u\{([0-9a-f]{2,6})\}", lambda m: chr(int(m.group(1), 16)) if int(m.group(1), 16) >= 0x80 else m.group(0), t)
+
+
 def run_peg(run, timeout=600):
     cases = texts(run)
     # the model must be compiled whatever property file is being checked (and Gen/AsmGrammar.v fresh)
     ok, out = common.regen()
     if ok:
-        okm, outm, _ = common.coq_make(["Model/Peg.vo"], timeout=900)
+        okm, outm, _ = common.coq_make(["Model/ParseTree.vo"], timeout=900)
         if not okm:
-            run.notes.append("peg: Model/Peg.vo does not build: " + outm[-500:])
+            run.notes.append("peg: Model/ParseTree.vo does not build: " + outm[-500:])
     else:
         run.notes.append("peg: translator failed: " + out[-500:])
-    reqs = ["peg " + (raw.hex() or "-") for _, _, raw in cases]
+    reqs = []
+    for _, _, raw in cases:
+        h = raw.hex() or "-"
+        reqs += ["peg " + h, "parse_debug " + h, "asm " + h]
     impl, rc, rawout = common.run_harness(reqs, timeout=timeout)
     if len(impl) != len(reqs):
         impl = []
         for r in reqs:
             one, rc1, raw1 = common.run_harness([r], timeout=60)
             impl.append(one[0] if one else f"crash:rc={rc1}")
-    exprs = ["run_peg " + common.coq_bytes(list(raw)) for _, _, raw in cases]
+    exprs = ["run_text_all " + common.coq_bytes(list(raw)) for _, _, raw in cases]
     model, errors = common.coq_eval(IMPORTS, exprs, timeout=timeout, tag="peg" + run.pid)
     dist = {}
     dis = []
-    for (cat, t, raw), a, b in zip(cases, impl, model):
-        ok = "parses" if (a or "").strip() != "err" else "rejected"
+    for k, ((cat, t, raw), b) in enumerate(zip(cases, model)):
+        a_peg, a_tree, a_asm = impl[3 * k], impl[3 * k + 1], impl[3 * k + 2]
+        parts = (b or "").split("|")
+        b_peg, b_tree, b_asm = (parts + [None, None, None])[:3] if b is not None and len(parts) == 3 else (b, None, None)
+        ok = "parses" if (a_peg or "").strip() != "err" else "rejected"
         key = f"peg:{cat}:{ok}"
         dist[key] = dist.get(key, 0) + 1
-        if common.canon_default(a) != common.canon_default(b):
-            dis.append(dict(cat=cat, text=t, hex=raw.hex(), impl=a, model=b))
+        if common.canon_default(a_peg) != common.canon_default(b_peg):
+            dis.append(dict(cat=cat, what="pairs", text=t, hex=raw.hex(), impl=a_peg, model=b_peg))
+            continue
+        # pairs -> tree
+        ta, tb = common.canon_default(_tree_text(a_tree)), common.canon_default(_tree_text(b_tree))
+        kind = "tree" if ta.startswith("ok:") else ta.split("(")[0]
+        dist["text:" + kind] = dist.get("text:" + kind, 0) + 1
+        if ta != tb:
+            dis.append(dict(cat=cat, what="tree", text=t, hex=raw.hex(), impl=ta, model=tb))
+            continue
+        # text -> bytes, single-file programs
+        if (b_asm or "").strip() == "directive":
+            dist["text:asm-skipped-directive"] = dist.get("text:asm-skipped-directive", 0) + 1
+            continue
+        ka = "asm-ok" if (a_asm or "").startswith("ok:") else "asm-" + (a_asm or "crash")[4:].split("(")[0].split(" ")[0]
+        dist["text:" + ka] = dist.get("text:" + ka, 0) + 1
+        if common.canon_default(a_asm) != common.canon_default(b_asm):
+            dis.append(dict(cat=cat, what="asm", text=t, hex=raw.hex(), impl=a_asm, model=b_asm))
     if errors and any(m is None for m in model):
         run.notes.append("peg: coq evaluation errors: " + " | ".join(e[-300:] for e in errors[:2]))
     if cases:
         cat, t, raw = cases[len(GLUED) // 2]
-        run.samples.append(dict(request=("peg " + raw.hex())[:300], impl=(impl[len(GLUED) // 2] or "")[:300], model=(model[len(GLUED) // 2] or "")[:300]))
+        run.samples.append(dict(request=("peg|parse_debug|asm " + raw.hex())[:300], impl=" | ".join(str(x) for x in impl[3 * (len(GLUED) // 2):3 * (len(GLUED) // 2) + 3])[:400], model=(model[len(GLUED) // 2] or "")[:400]))
     return len(cases), dis, dist
+
+
+WHAT = {"pairs": "PEG model of asm.pest (Model/Peg.v) vs the pest parser (pairs of Rule::program)",
+        "tree": "pairs -> syntax tree (Model/ParseTree.v) vs parse_asm (Debug rendering of the nodes / ParseError kind)",
+        "asm": "source text -> bytes (Model/ParseTree.v + Model/Asm.v) vs Ingest::ingest"}
+
+
+def describe(d):
+    return "correspondence: " + WHAT.get(d.get("what", "pairs"), "text model")
 
 
 def report(run, proof_found_failure=False):
     """shared tail for the callers: run, account, log.  Returns the disagreements."""
     n, dis, dist = run_peg(run)
-    run.corr["cases"] += n
+    run.corr["cases"] += 3 * n
     run.corr["distinct"] = run.corr.get("distinct", 0) + n
     run.corr["disagreements"] += len(dis)
     for k, v in dist.items():
         run.corr["distribution"][k] = run.corr["distribution"].get(k, 0) + v
     if dis:
         d = dis[0]
-        run.log(f"PEG DISAGREE ({len(dis)}) text={d['text'][:200]!r}: pest={str(d['impl'])[:300]!r} model={str(d['model'])[:300]!r}")
+        run.log(f"TEXT MODEL DISAGREE ({len(dis)}) [{d['what']}] text={d['text'][:200]!r}: impl={str(d['impl'])[:300]!r} model={str(d['model'])[:300]!r}")
     else:
-        run.log(f"peg model vs pest: {n} texts agree")
+        run.log(f"text model vs pest / parse_asm / Ingest::ingest: {n} texts agree (pairs, tree, bytes)")
     return dis
